@@ -26,13 +26,21 @@ def getTicksize (freq tfN tfD rrN rrD bpm : Int) : Int :=
   let t := rawTicks freq (tfN * rrN) (tfD * rrD) bpm
   if t < minTicks then minTicks else t
 
-/-- the frame cap in sample frames: `XMP_MAX_FRAMESIZE / 4` (`XMP_MAX_FRAMESIZE` is in bytes, a frame has up to 4) -/
-def capTicks : Int := maxFramesize / 4
+/-- the frame cap in sample frames that `libxmp_mixer_prepare` tests against: `XMP_MAX_FRAMESIZE / N` with the divisor
+as written in the C (generated; `XMP_MAX_FRAMESIZE` is in bytes and a frame has up to 4, so only `N ≥ 4` keeps
+`buffer_size ≤ XMP_MAX_FRAMESIZE`: `Xmp.Tick.capTicks_eq`, `C16_ticksize`) -/
+def capTicks : Int := maxFramesize / prepareCapTestDiv
+
+/-- the tick size `libxmp_mixer_prepare` substitutes when the test fires -/
+def capSetTicks : Int := maxFramesize / prepareCapSetDiv
+
+/-- the cap `xmp_set_tempo_factor` tests against -/
+def capFactorTicks : Int := maxFramesize / tempoFactorCapDiv
 
 /-- `s->ticksize` after `libxmp_mixer_prepare` -/
 def prepare (freq tfN tfD rrN rrD bpm : Int) : Int :=
   let t := getTicksize freq tfN tfD rrN rrD bpm
-  if t < 0 ∨ t > capTicks then capTicks else t
+  if t < 0 ∨ t > capTicks then capSetTicks else t
 
 /-- bytes per sample frame of the output format -/
 def frameBytes (mono bit8 : Bool) : Int := (if mono then 1 else 2) * (if bit8 then 1 else 2)
@@ -59,6 +67,6 @@ is invalid or above `XMP_MAX_FRAMESIZE / 4` frames. -/
 def setTempoFactor (freq rrN rrD bpm vN vD : Int) : Option (Int × Int) :=
   if vN ≤ 0 then none else
   let t := getTicksize freq (vN * 10) vD rrN rrD bpm
-  if t < 0 ∨ t > capTicks then none else some (vN * 10, vD)
+  if t < 0 ∨ t > capFactorTicks then none else some (vN * 10, vD)
 
 end Xmp.Tick
